@@ -17,6 +17,12 @@ theorem C07_tie_source :
     (Generated.typeEnumTable.all fun (n, l) => typeToType (.lit n) == some l) = true :=
   ⟨Tie.consts_tie.2.2.2.2.2.2.1, Tie.consts_tie.2.2.2.2.2.2.2.2.1, Tie.consts_tie.2.2.2.2.2.2.2.2.2.1, Tie.enum_tables_tie.1, Tie.enum_tables_tie.2.1⟩
 
+/-- tie to today's source, lattice: transaction-kind sets are joined and met with Python's `|` and `&` (translated on this
+    run from TxnType._union / _intersection) -/
+theorem C07_tie_lattice (a b : NatSet) :
+    txnTypeAnalysis.dom.union a b = Generated.txnTypeUnion a b ∧ txnTypeAnalysis.dom.inter a b = Generated.txnTypeInter a b :=
+  ⟨(Tie.set_ops_tie a b).2.2.1, (Tie.set_ops_tie a b).2.2.2⟩
+
 /-- the four kinds the detectors consume, as a function of the governed transaction's fields -/
 def relevantKinds (typeEnum onCompletion : Nat) : List Nat :=
   if typeEnum = 1 then [TT.Pay] else if typeEnum = 4 then [TT.Axfer]
